@@ -259,6 +259,18 @@ def gen(seed=0):
                         "            4'hf: z = 4'd1;\n            4'hf: z = 4'd2;\n            4'h3: z = b;\n            default: z = 4'd3;\n        }\n    }\n"
                         "    assign w = if a == 4'd2 ? 4'd1 : if a == 4'd7 ? 4'd2 : if a == 4'd2 ? 4'd4 : if a == 4'd9 ? 4'd8 : b;"))
 
+    add("Cmp_in_unsigned", mod("Cmp_in_unsigned", [("a", "input ", lg(8, True)), ("b", "input ", lg(8, True)), ("u", "input ", lg(4)),
+                                                   ("y0", "output", lg(4)), ("y1", "output", lg(4)), ("y2", "output", lg(4)),
+                                                   ("y3", "output", lg(4))],
+                               "    assign y0 = (a <: b) + u;\n    assign y1 = (a >= b) ^ u;\n    assign y2 = {(a >: b), (a <= b)} + u;\n"
+                               "    assign y3 = if (a <: b) ? u : ~u;"))
+
+    add("Ashr_unsigned", mod("Ashr_unsigned", [("a", "input ", lg(2)), ("b", "input ", lg(4)), ("s", "input ", lg(4, True)),
+                                               ("n", "input ", lg(3)), ("y0", "output", lg(9)), ("y1", "output", lg(9)),
+                                               ("y2", "output", lg(9)), ("y3", "output", lg(9)), ("y4", "output", lg(9))],
+                             "    assign y0 = ((a - b) >>> 2);\n    assign y1 = (b >>> 1);\n    assign y2 = (s >>> 1);\n"
+                             "    assign y3 = ((a - b) >>> n);\n    assign y4 = ((s - 4'sd1) >>> n);"))
+
     # 8. hierarchy: per-instance parameters, tied-off child inputs, state in children, two levels
     def hier(name, children, ports, body):
         add(name, children + mod(name, ports, body))
@@ -617,6 +629,7 @@ class _RandMod:
         self.pool = []       # previously generated expression texts (for sharing)
         self.lines = []
         self.ports = []
+        self.rich = rnd.random() < 0.5   # half of the designs also draw >>>, <<<, *, /, %
         self.nosel = set()   # signed variables that must not be bit-/part-selected (VERIF_NO_SIGNED_SELECT, debugging aid)
 
     def w(self, small=False):
@@ -663,8 +676,18 @@ class _RandMod:
             e = f"({a} {r.choice(['==', '!=', '<:', '>=', '>:', '<='])} {self.expr(vals, depth + 1)})"
         elif k < 0.88:
             e = f"(if {self.cond(vals, depth + 1)} ? {a} : {self.expr(vals, depth + 1)})"
-        elif k < 0.95:
+        elif k < 0.93:
             e = "{" + a + ", " + self.expr(vals, depth + 1) + "}"
+        elif k < 0.95:
+            e = "{" + self.atom(vals) + f" repeat {r.choice([2, 3])}" + "}"
+        elif k < 0.97 and self.rich:
+            # arithmetic shifts, and multiply / divide / remainder on narrow atoms (kept narrow for the solver)
+            narrow = [v for v in vals if v[1] <= 6]
+            sh = [f"({a} >>> {r.choice(['1', '2', '7'])})", f"({a} <<< 1)"]
+            if narrow:
+                x, y = r.choice(narrow)[0], r.choice(narrow)[0]
+                sh += [f"({x} * {y})", f"({x} / {y})", f"({x} % {y})"]
+            e = r.choice(sh)
         else:
             e = f"(-{a})"
         if depth <= 1 and len(e) < 120:
@@ -741,7 +764,11 @@ class _RandMod:
                         continue
                     seen.add(cv)
                     v, vw = r.choice(owned)
-                    out.append(f"{pad}    {w}'d{cv}: {v} = {self.expr(rd)};")
+                    if self.rich and r.random() < 0.25 and cv + 2 < (1 << min(w, 8)) and not (seen & {cv + 1, cv + 2}):
+                        seen.update({cv + 1, cv + 2})
+                        out.append(f"{pad}    {w}'d{cv}..={w}'d{cv + 2}: {v} = {self.expr(rd)};")
+                    else:
+                        out.append(f"{pad}    {w}'d{cv}: {v} = {self.expr(rd)};")
                 v, vw = r.choice(owned)
                 out.append(f"{pad}    default: {v} = {self.expr(rd)};")
                 out.append(f"{pad}}}")
